@@ -147,7 +147,65 @@ def check_suppressed_failures(ctx, tagged):
                      % (d, logs, info['final'], d), family='suppressed-failures-in-flows')
 
 
+def guarded_activities(ctx, n):
+    """directed family (direct API): the activities given to first() / collect() wait inside `async with until(flag)` /
+    `until(time >= date)` blocks of their own when they are aborted (first() has its results, collect() saw a failure).
+    Aborting them is clean: first() yields exactly the winners and raises nothing, collect() raises exactly the failure, and
+    when the flag is set / the date comes later nothing of the aborted activities wakes up"""
+    import usim
+    from usim import time, first, collect
+    from harness import watch
+    rng = ctx.rng
+    for _ in range(n):
+        api = rng.choice(['first', 'collect'])
+        guard = rng.choice(['flag', 'date'])
+        k = rng.choice([1, 2, 3])
+        case = {'guarded_activities': dict(api=api, guard=guard, guarded=k)}
+        log = []
+
+        async def main():
+            flag = usim.Flag()
+
+            async def guarded(i):
+                async with usim.until(flag if guard == 'flag' else (time >= 8)):
+                    await (time + 20)
+                    log.append(('guarded activity finished its wait', i, time.now))
+                log.append(('guarded activity left its block', i, time.now))
+                return 'g%d' % i
+
+            async def job():
+                await (time + 2)
+                if api == 'collect':
+                    raise KeyError('job')
+                return 'job'
+            try:
+                if api == 'first':
+                    async for r in first(job(), *[guarded(i) for i in range(k)], count=1):
+                        log.append(('result', r, time.now))
+                else:
+                    await collect(job(), *[guarded(i) for i in range(k)])
+                    log.append(('collect returned', time.now))
+            except usim.Concurrent as e:
+                log.append(('raised', sorted(type(c).__name__ for c in e.children), time.now))
+            await (time + 3)
+            await flag.set()
+            await (time + 10)
+            log.append(('end', time.now))
+        try:
+            watch.run(main())
+        except BaseException as e:   # noqa
+            ctx.fail(case, 'run() raised %r after %r' % (e, log), family='guarded-activities')
+            continue
+        ctx.count(case, nontrivial=True)
+        ctx.bump('family:guarded-activities')
+        want = [('result', 'job', 2) if api == 'first' else ('raised', ['KeyError'], 2), ('end', 15)]
+        if log != want:
+            ctx.fail(case, '%s() over a job (done at 2) and %d activities waiting inside until(%s): observed %r, expected %r'
+                     % (api, k, guard, log, want), family='guarded-activities')
+
+
 def run(ctx):
+    guarded_activities(ctx, ctx.n(20, 200))
     # C03's monitor is used here only to recognise known finding D11 (CancelScope of first()'s scope escaping);
     # other C03 failures belong to C03's own check
     scs, impl = machine_prop.run(ctx, FAMILIES, ['C16', 'C04'], extra_scenarios=cancelled_callers(ctx.rng, ctx.n(80, 1500)) +
